@@ -342,6 +342,27 @@ func c14Nested(rt *rapid.T) {
 		if err != nil || !gen.EqualAV(dt, c.av, got) {
 			rt.Fatalf("nested NULL did not survive the round trip: got %s (%v)\n%s", clip200(gen.RenderAV(dt, got)), err, c)
 		}
+		// into a destination pre-filled with non-null values: the NULL must overwrite the stale element
+		if rep.Kind != "map" && rep.Kind != "ifacemap" {
+			prev := gen.DrawAV(rt, dt, rep, v, false, "previous")
+			old := gen.ToGo(prev, dt, rep)
+			for old.Kind() == reflect.Ptr && old.Type() != reflect.PtrTo(topDestType(rep)) && !old.IsNil() {
+				old = old.Elem()
+			}
+			dest2 := reflect.New(topDestType(rep))
+			if old.Type() == dest2.Type() && !old.IsNil() {
+				dest2 = old
+			} else if old.Type() == dest2.Type().Elem() {
+				dest2.Elem().Set(old)
+			}
+			if _, fail := decodeInto(codec, enc, dest2.Interface(), v); fail != "" {
+				rt.Fatalf("%s (pre-filled destination)\n%s", fail, c)
+			}
+			got3, err := gen.FromGo(dest2.Elem(), dt)
+			if err != nil || !gen.EqualAV(dt, c.av, got3) {
+				rt.Fatalf("nested NULL decoded into a destination that already held %s yields %s (%v): the stale element shows through\n%s", clip200(gen.RenderAV(dt, prev)), clip200(gen.RenderAV(dt, got3)), err, c)
+			}
+		}
 		if gen.UntypedDecodable(dt) {
 			var any interface{}
 			if _, fail := decodeInto(codec, enc, &any, v); fail != "" {
